@@ -3,7 +3,7 @@
 CHECKS = {
     "C18": dict(
         pkg="./ringbuffer", hdir="ringbuffer", test="TestVerif_C18",
-        quick=dict(shards=16, checks=20000, timeout=300),
+        quick=dict(shards=16, checks=60000, timeout=300),
         thorough=dict(shards=16, checks=400000, timeout=1500),
         technique="stateful property-based testing (rapid) against a reference FIFO model",
         level_text="Generated operation histories on the real shm-backed ring (writer+reader objects) are compared step by step with a "
@@ -20,7 +20,7 @@ CHECKS = {
     ),
     "C12": dict(
         pkg=".", hdir="root", test="TestVerif_C12",
-        quick=dict(shards=16, checks=30000, timeout=300),
+        quick=dict(shards=16, checks=150000, timeout=300),
         thorough=dict(shards=16, checks=500000, timeout=1800),
         technique="property-based testing (rapid): integer reference model of the statement + metamorphic split-into-calls relation",
         rule="rapid-generated option sets as the real callers build them (NewAbacoGroup: rescale/unwrap/bias/pulse sign/reset interval/"
@@ -38,7 +38,7 @@ CHECKS = {
     ),
     "C13": dict(
         pkg=".", hdir="root", test="TestVerif_C13",
-        quick=dict(shards=16, checks=2500, timeout=300),
+        quick=dict(shards=16, checks=10000, timeout=300),
         thorough=dict(shards=16, checks=50000, timeout=2400),
         technique="property-based testing (rapid) against an extended-precision (300-bit big.Float) reference with a-priori rounding bounds",
         rule="rapid-generated records (pretrigger 3..256, 1..1021 post-trigger samples; constant, full-scale, alternating extremes, pulses that "
@@ -56,7 +56,7 @@ CHECKS = {
     ),
     "C14": dict(
         pkg=".", hdir="root", test="TestVerif_C14",
-        quick=dict(shards=16, checks=2500, timeout=300),
+        quick=dict(shards=16, checks=8000, timeout=300),
         thorough=dict(shards=16, checks=60000, timeout=2400),
         technique="property-based testing (rapid): independent decoder written from doc/BINARY_FORMATS.md (round-trip), direct and through real PUB/SUB sockets",
         rule="rapid-generated batches of 1-5 records (channel 0..65534 incl. neighbours of the subscribed channel that share one prefix byte; "
@@ -74,7 +74,7 @@ CHECKS = {
     ),
     "C15": dict(
         pkg="./packets", hdir="packets", test="TestVerif_C15(RT|RAW)?", ids=["C15", "C15RT", "C15RAW"], custom="c15_fuzz",
-        quick=dict(shards=16, checks=6000, timeout=300),
+        quick=dict(shards=16, checks=50000, timeout=300),
         thorough=dict(shards=16, checks=150000, timeout=2400, fuzz_seconds=100),
         technique="property-based testing (rapid, structure-aware packet grammar) + encode/decode round trip + coverage-guided native go fuzzing (thorough tier)",
         rule="(i) rapid-generated byte strings = valid 16-byte header + 0-5 TLVs from a grammar (every TLV type; hostile sizes 0/too big/255; "
@@ -94,7 +94,7 @@ CHECKS = {
     ),
     "C05": dict(
         pkg=".", hdir="root", test="TestVerif_C05",
-        quick=dict(shards=16, checks=4000, timeout=400),
+        quick=dict(shards=16, checks=12000, timeout=400),
         thorough=dict(shards=16, checks=60000, timeout=3000),
         technique="stateful property-based testing (rapid) with independent file decoders (written from doc/LJH.md, the LJH3 layout and OFF 0.3.0) as round-trip oracle",
         rule="rapid-generated channel/geometry parameters (indices and geometry 0..65535, names without whitespace, 8 time bases, sub-frame "
@@ -115,7 +115,7 @@ CHECKS = {
     ),
     "C07": dict(
         pkg=".", hdir="root", test="TestVerif_C07[AB]", ids=["C07A", "C07B"],
-        quick=dict(shards=16, checks=1500, timeout=600),
+        quick=dict(shards=16, checks=3000, timeout=600),
         thorough=dict(shards=16, checks=25000, timeout=3000),
         technique="property-based testing (rapid) with a harness-owned disk: gate writer under asyncbufio, FIFO under the real LJH/OFF writers; byte-exact stream oracle",
         rule="(A) rapid-generated interleavings (1-60 ops) of Write(0..9000 bytes)/Flush/Close/gate-open/gate-close on asyncbufio.Writer with "
@@ -133,7 +133,7 @@ CHECKS = {
     ),
     "C01": dict(
         pkg=".", hdir="root", test="TestVerif_C01", wal=True,
-        quick=dict(shards=16, checks=5000, timeout=600),
+        quick=dict(shards=16, checks=15000, timeout=600),
         thorough=dict(shards=16, checks=40000, timeout=3000),
         technique="property-based testing (rapid): validity predicate over every emitted record against a harness-kept ground-truth stream",
         rule="rapid-generated 1-4 channel streams (any baseline incl. 0/32767/32768/65535, noise, fully random, 0-8 pulses of 5 shapes and "
@@ -154,7 +154,7 @@ CHECKS = {
     ),
     "C02": dict(
         pkg=".", hdir="root", test="TestVerif_C02", wal=True,
-        quick=dict(shards=16, checks=4000, timeout=600),
+        quick=dict(shards=16, checks=12000, timeout=600),
         thorough=dict(shards=16, checks=60000, timeout=3000),
         technique="property-based testing (rapid): independent criterion scan of the ground-truth stream (soundness + completeness + overlap + auto-gap), per configuration epoch",
         rule="rapid-generated 1-2 channel streams with pulses placed preferentially within +-nsamp of block boundaries, block partitions as "
@@ -174,7 +174,7 @@ CHECKS = {
     ),
     "C08": dict(
         pkg=".", hdir="root", test="TestVerif_C08", wal=True,
-        quick=dict(shards=16, checks=3000, timeout=600),
+        quick=dict(shards=16, checks=15000, timeout=600),
         thorough=dict(shards=16, checks=60000, timeout=3000),
         technique="property-based testing (rapid): metamorphic/differential relation one-block vs partitioned run + validity predicates",
         rule="rapid-generated one-channel streams with edges placed at indexes npre-2..npre+2 (first searchable sample), at block boundaries "
@@ -192,7 +192,7 @@ CHECKS = {
     ),
     "C09": dict(
         pkg=".", hdir="root", test="TestVerif_C09", wal=True,
-        quick=dict(shards=16, checks=3000, timeout=600),
+        quick=dict(shards=16, checks=12000, timeout=600),
         thorough=dict(shards=16, checks=60000, timeout=3000),
         technique="stateful property-based testing (rapid) against a set-of-pairs reference model + per-cycle multiset oracle for secondaries",
         rule="rapid-generated histories on a 2/4/6-channel LanceroSource value: 1-10 edits (add/delete with 1-4 receivers incl. out-of-range, "
@@ -209,7 +209,7 @@ CHECKS = {
     ),
     "C06": dict(
         pkg=".", hdir="root", test="TestVerif_C06", wal=True,
-        quick=dict(shards=16, checks=1500, timeout=600),
+        quick=dict(shards=16, checks=5000, timeout=600),
         thorough=dict(shards=16, checks=12000, timeout=3000),
         technique="stateful property-based testing (rapid): consistency oracle between the reported writing state and decoded files/open descriptors",
         rule="rapid-generated histories (2-16 steps) on a real 2-4 channel AnySource with auto triggers (some channels with projectors): "
@@ -229,7 +229,7 @@ CHECKS = {
     ),
     "C20": dict(
         pkg=".", hdir="root", test="TestVerif_C20", wal=True,
-        quick=dict(shards=16, checks=1500, timeout=600),
+        quick=dict(shards=16, checks=2500, timeout=600),
         thorough=dict(shards=16, checks=25000, timeout=3000),
         technique="stateful property-based testing (rapid): independent decoders of the three side files compared with the harness' event log per START..STOP cycle",
         rule="rapid-generated histories (2-40 ops) on a real 1-3 channel AnySource: data blocks carrying 0..700 external-trigger counts (any int64 "
@@ -248,7 +248,7 @@ CHECKS = {
     ),
     "C03": dict(
         pkg=".", hdir="root", test="TestVerif_C03", wal=True,
-        quick=dict(shards=16, checks=400, timeout=900),
+        quick=dict(shards=16, checks=1500, timeout=900),
         thorough=dict(shards=16, checks=8000, timeout=3400),
         technique="property-based testing (rapid) with a scripted packet producer as the clock; reference demultiplexer as oracle",
         rule="rapid-generated group layouts (1-4 groups arriving in arbitrary order over 1-4 producers, 1-8 channels each, 1-D or 2-D shape, "
@@ -294,7 +294,7 @@ CHECKS = {
     ),
     "C19": dict(
         pkg=".", hdir="root", test="TestVerif_C19", wal=True,
-        quick=dict(shards=16, checks=1500, timeout=900),
+        quick=dict(shards=16, checks=6000, timeout=900),
         thorough=dict(shards=16, checks=30000, timeout=3400),
         technique="property-based testing (rapid): validity predicates over the identity tables of every accepted configuration + decoded file headers of a real START/STOP cycle",
         rule="rapid-generated Lancero configurations (1-3 cards with distinct device numbers 0-5 in any order, 1-8 columns, 1-40 rows (mostly equal "
@@ -340,7 +340,7 @@ CHECKS = {
     ),
     "C11": dict(
         pkg=".", hdir="root", test="TestVerif_C11", wal=True,
-        quick=dict(shards=32, checks=60, timeout=900),
+        quick=dict(shards=32, checks=200, timeout=900),
         thorough=dict(shards=32, checks=1500, timeout=3400),
         technique="stateful property-based testing (rapid) of the real SourceControl + Start/CoreLoop: watchdog with goroutine-dump quiescence test, progress counter, enter/exit monitor around block processing and request application",
         rule="rapid-generated request histories (requests before start, 2-14 while running, 1-4 after the source stopped or ended itself, optionally a "
